@@ -39,6 +39,16 @@ their length, so the source of a blank value is compared too; the empty string h
 compared as a value.  Families "blank" / "blank4" enumerate blank definitions at every level of 3- and
 4-class hierarchies (single, multiple, diamond), accessed on classes and instances, before and after a render.
 
+Fault, then retry (code -> spec, validated by Trace_C16 with MediaInherit!MustRaise / MayRaise): seeded histories on 2-4
+classes in which some `js_file` / `css_file` do not exist at the first accesses and appear later (files only appear,
+in stages; accesses of js / css / template / media on base classes, subclasses and instances in between and at the end
+with everything present).  What an access answers is determined by the hierarchy and the files as they are at that
+moment, never by earlier failed accesses: `C.<p>` whose nearest definition is a missing file raises every time; any
+access of a class with a missing file in its MRO may raise or answer with the regular value (the property does not say
+whether the files of a class are loaded together); everything else answers with the regular value.  Left out: missing
+template files (Django's cached template loader remembers a miss - not the library's state), files that disappear
+after they were loaded, renders and the shapes of the named deviations in such histories.
+
 Not determined by the property, therefore not asserted: what rendering does when no class defines a template
 (it raises), where tags go in a blank document (only: nothing foreign in it); the relative order of files that no
 declared list relates, the order when the declared lists are cyclic (Django warns; compared
@@ -226,12 +236,17 @@ def _media_class(rec, rel, classes, rnd: random.Random, canonical: bool = False)
     return type("Media", (), d)
 
 
-def run_real(cls_recs, rel, accesses, forms: int, keep_memo: bool = False) -> List[Dict[str, Any]]:
+def run_real(cls_recs, rel, accesses, forms: int, keep_memo: bool = False,
+             missing: Optional[List[List[Any]]] = None) -> List[Dict[str, Any]]:
     """Build the hierarchy with type() in a fresh module and perform the accesses.
     `accesses` is a list of [c, attr, via]; accesses to classes that could not be created are
     dropped.  Returns the events (creation outcomes, then one observation per access).
     Every run uses the class names K1..Kn in a module of its own; with keep_memo the classes stay
-    in the library's memo table afterwards (same-named classes of earlier runs must not matter)."""
+    in the library's memo table afterwards (same-named classes of earlier runs must not matter).
+    `missing` (fault-then-retry runs): the [c, p] whose `<p>_file` (js / css) does not exist when the run starts;
+    the js / css files of such a run live in a directory of their own (other processes share the world's files),
+    an entry [c, "mkfile", p] among the accesses creates the file of class c; every access event records the
+    files missing at that moment (`miss`)."""
     from django.core.exceptions import ImproperlyConfigured
     from django_components import Component
     w = world()
@@ -249,6 +264,12 @@ def run_real(cls_recs, rel, accesses, forms: int, keep_memo: bool = False) -> Li
     rel = set(rel)
     classes: Dict[int, Any] = {0: Component}
     events: List[Dict[str, Any]] = []
+    fdir = ""
+    miss: List[List[Any]] = sorted([int(c), str(p)] for c, p in (missing or []))
+    if missing is not None:
+        import os
+        fdir = f"flt/{os.getpid()}_{w.counter}/"
+        (w.root / fdir).mkdir(parents=True)
     try:
         with warnings.catch_warnings():
             warnings.simplefilter("ignore")
@@ -274,7 +295,12 @@ def run_real(cls_recs, rel, accesses, forms: int, keep_memo: bool = False) -> Li
                         if member in ("file", "both"):
                             # `template_name` is the documented older spelling of `template_file`
                             name = "template_name" if p == "template" and rnd.random() < 0.25 else p + "_file"
-                            attrs[name] = World.attr_file(i, p, "text" if member == "both" else text)
+                            fname = World.attr_file(i, p, "text" if member == "both" else text)
+                            if fdir and p != "template":
+                                fname = fdir + fname
+                                if [i, p] not in miss:
+                                    (w.root / fname).write_text(World.content(i, p, "file", text))
+                            attrs[name] = fname
                     classes[i] = type(f"K{i}", bases, attrs)
                     out = "ok"
                 except ImproperlyConfigured:
@@ -291,11 +317,18 @@ def run_real(cls_recs, rel, accesses, forms: int, keep_memo: bool = False) -> Li
                 if out != "ok":
                     break
             for c, a, via in accesses:
+                if a == "mkfile":
+                    if [c, via] in miss:
+                        rec = cls_recs[c - 1]
+                        (w.root / (fdir + World.attr_file(c, via, rec["attr"][via].partition("-")[2] or "text"))
+                         ).write_text(World.content(c, via, "file", rec["attr"][via].partition("-")[2] or "text"))
+                        miss.remove([c, via])
+                    continue
                 if c not in classes or (c and cls_recs[c - 1].get("plain", False)):
                     continue
                 ev = {"op": "access", "c": c, "a": a, "via": via, "exc": False, "js": [], "all": [],
                       "print": [], "other": 0, "src": 0, "kind": "none", "val": "none", "file": 0,
-                      "rtpl": [], "rjs": [], "rcss": []}
+                      "rtpl": [], "rjs": [], "rcss": [], "miss": [{"c": mc, "p": mp} for mc, mp in miss]}
                 try:
                     target = classes[c] if via == "cls" else classes[c]()
                     if a == "media":
@@ -317,7 +350,7 @@ def run_real(cls_recs, rel, accesses, forms: int, keep_memo: bool = False) -> Li
                             fv = ("template_name differs", fv, target.template_name)
                         ev["src"], ev["kind"], ev["val"] = World.decode_value(a, v)
                         if fv is not None:
-                            m_ = re.fullmatch(rf"a(\d+)_{a}(?:_empty|_ws)?\.{EXT[a]}", fv) if isinstance(fv, str) else None
+                            m_ = re.fullmatch(rf"(?:flt/\w+/)?a(\d+)_{a}(?:_empty|_ws)?\.{EXT[a]}", fv) if isinstance(fv, str) else None
                             ev["file"] = int(m_.group(1)) if m_ else UNKNOWN
                 except Exception as e:  # the specification never raises on an access
                     ev["exc"] = True
@@ -325,6 +358,9 @@ def run_real(cls_recs, rel, accesses, forms: int, keep_memo: bool = False) -> Li
                 events.append(ev)
     finally:
         sys.modules.pop(modname, None)
+        if fdir:
+            import shutil
+            shutil.rmtree(w.root / fdir, ignore_errors=True)
         if not keep_memo:
             try:  # hygiene only: do not let 10^5 dead classes pile up in the process-global memo
                 import django_components.component_media as cm
@@ -457,6 +493,8 @@ def apply_verdicts(chk: Check, pending: List[Dict[str, Any]], res: Dict[Any, Any
     for i, p in enumerate(pending):
         r = res[i + 1]
         case = {"kind": "run", "cls": p["cls"], "rel": p["rel"], "accesses": p["accesses"], "forms": p["forms"]}
+        if p.get("missing") is not None:
+            case["missing"] = p["missing"]
         if r["verdict"] == "reject":
             ev = p["events"][r["event"] - 1]
             if ("C." in r["clauses"] and "typeerror" in r["clauses"]) or "M.mro" in r["clauses"]:
@@ -761,6 +799,80 @@ def random_traces(chk: Check, ntraces: int) -> List[Dict[str, Any]]:
     return pending
 
 
+def gen_fault_run(rnd: random.Random):
+    """A hierarchy of 2-4 Component classes of which some define `js_file` / `css_file`, a non-empty set of those
+    files that does not exist at the start, and a history: accesses (media / js / css / template, on classes -
+    base and subclass - and instances) while files are missing, files appearing in stages with accesses in
+    between, and at the end every attribute of every class with all files present.  Media: none or single-file
+    lists with extend = True (the shapes of the named deviations are the subject of the other families)."""
+    n = rnd.choice([2, 3, 3, 4])
+    cls, filed = [], []
+    for i in range(1, n + 1):
+        bases = sorted(rnd.sample(range(1, i), min(i - 1, rnd.choice([1, 1, 1, 2]))), reverse=True)
+        lists = {t: [] for t in TYPES}
+        media = "def" if rnd.random() < 0.6 else "none"
+        if media == "def":
+            lists["js"] = [rnd.choice([1, 2, 3, 4])]
+            if rnd.random() < 0.5:
+                lists["all"] = [rnd.choice([1, 2, 3, 4])]
+        attr = {}
+        for p in PAIRS:
+            z = rnd.random()
+            if p == "template":
+                attr[p] = "none" if z < 0.5 else ("inline" if z < 0.8 else "file")
+            else:
+                attr[p] = "none" if z < 0.35 else ("inline" if z < 0.5 else "file")
+                if attr[p] == "file":
+                    if rnd.random() < 0.2:
+                        attr[p] += rnd.choice(["-empty", "-ws"])
+                    filed.append([i, p])
+        cls.append({"plain": False, "bases": bases, "media": media, "lists": lists, "ext": "true", "extl": [],
+                    "attr": attr})
+    if not filed:
+        p = rnd.choice(["js", "css"])
+        cls[0]["attr"][p] = "file"
+        filed.append([1, p])
+    missing = sorted(rnd.sample(filed, rnd.randint(1, len(filed))))
+    left = list(missing)
+    acc: List[List[Any]] = []
+    what = ["js", "css", "js", "css", "template", "media"]
+    while left:
+        for _ in range(rnd.randint(1, 4)):
+            acc.append([rnd.choice([0] + list(range(1, n + 1)) * 4), rnd.choice(what), rnd.choice(["cls", "inst"])])
+        for m in rnd.sample(left, rnd.randint(1, len(left))):
+            acc.append([m[0], "mkfile", m[1]])
+            left.remove(m)
+    order = list(range(1, n + 1))
+    rnd.shuffle(order)
+    for c in order:
+        for a in rnd.sample(["js", "css", "template", "media"], 4):
+            acc.append([c, a, rnd.choice(["cls", "inst"])])
+    return cls, missing, acc
+
+
+def fault_traces(chk: Check, ntraces: int) -> List[Dict[str, Any]]:
+    """Record seeded fault-then-retry histories on the real library (validated by TLC afterwards:
+    MediaInherit!MustRaise / MayRaise and the regular clauses)."""
+    rnd = random.Random(chk.seed * 7919 + 160016)
+    pending = []
+    for n in range(ntraces):
+        cls, missing, acc = gen_fault_run(rnd)
+        forms = rnd.randrange(1 << 30)
+        events = run_real(cls, [], acc, forms, keep_memo=n % 2 == 0, missing=missing)
+        if any(e["op"] == "create" and e["out"] != "ok" for e in events):
+            raise MachineryError(f"fault run: a class could not be created: {canon(cls)}")
+        pending.append({"cls": cls, "rel": [], "accesses": acc, "forms": forms, "events": events, "missing": missing})
+        chk.count({"cls": cls, "missing": missing, "accesses": acc})
+        if n < 2:
+            chk.sample({"fault_run": {"cls": cls, "missing": missing, "accesses": acc,
+                                      "observed": [[e["c"], e["a"], e["via"], "raised" if e["exc"] else e["val"],
+                                                    len(e["miss"])] for e in events if e["op"] == "access"]}}, limit=9)
+    chk.add("fault_runs", len(pending))
+    chk.add("fault_accesses_raised", sum(1 for p in pending for e in p["events"] if e.get("exc")))
+    chk.add("traces_validated_against_impl", len(pending))
+    return pending
+
+
 # ---------------------------------------------------------------- entry points
 def _body(chk: Check, quick: bool, small: bool = False) -> None:
     """The whole check.  TLC work (exports, memo machine, trace validation) runs in threads beside
@@ -779,6 +891,9 @@ def _body(chk: Check, quick: bool, small: bool = False) -> None:
             rnd_runs = random_traces(chk, 250 if small else (1000 if quick else 12000))
             judged.append((rnd_runs, ex.submit(tlc_validate, as_traces(rnd_runs), "random"), False))
             phase["random_recorded"] = round(time.time() - t_start, 1)
+            flt_runs = fault_traces(chk, 60 if small else (400 if quick else 4000))
+            judged.append((flt_runs, ex.submit(tlc_validate, as_traces(flt_runs), "fault"), False))
+            phase["fault_recorded"] = round(time.time() - t_start, 1)
             for fam in ORDER:
                 pend = replay_cases(chk, fam, quick, exports[fam].result(), pool, small=small)
                 judged.append((pend, ex.submit(tlc_validate, as_traces(pend), f"explain_{fam}"), True))
@@ -820,7 +935,9 @@ def run(tier: str) -> int:
         "extended is replayed as prefix of its extensions.  code -> spec: seeded random hierarchies of 3-6 classes, "
         "<= 3 bases, lists of <= 3 files from 4, relative files, all surface forms, blank texts for 30% of the defined "
         "assets, 4-14 random accesses plus renders, validated "
-        "by Trace_C16; every run contradicting the exported expectation is also judged by Trace_C16.  Non-trivial = "
+        "by Trace_C16; fault-then-retry histories (2-4 classes, js_file / css_file missing at first and appearing in "
+        "stages, accesses on classes, subclasses and instances in between and afterwards) validated by Trace_C16 "
+        "(MustRaise / MayRaise); every run contradicting the exported expectation is also judged by Trace_C16.  Non-trivial = "
         ">= 2 usable classes and some class declares Media or an asset; distinct by hash of (family, hierarchy, "
         "access plan) resp. of the random run")
     chk.assumptions += [
@@ -831,6 +948,9 @@ def run(tier: str) -> int:
         "Python's own rejection of hierarchies without C3 order is used only to cross-check the MRO transcription",
         "SafeString entries and media_class subclasses are not generated; plain mixins carry only a Media in "
         "canonical form (nobody normalises it), never assets or component-relative files",
+        "an access depends on the hierarchy and on the asset files as they are at that moment, not on earlier failed "
+        "accesses; which accesses of a class with a missing file in its MRO raise is fixed only for the attribute "
+        "whose nearest definition is the missing file (must raise), all others may raise or answer",
         "layer B (MediaInheritImpl) is used only to classify an observation the specification already rejected",
         "a blank text (empty string, whitespace only, empty file) is a defined value; the empty string carries no class "
         "identity and is compared as a value, whitespace-only texts encode their class; rendering is judged only when some "
@@ -843,7 +963,7 @@ def replay(path: str) -> int:
     d = json.load(open(path))
     case = d["case"]
     world()
-    events = run_real(case["cls"], case["rel"], case["accesses"], case.get("forms", 0))
+    events = run_real(case["cls"], case["rel"], case["accesses"], case.get("forms", 0), missing=case.get("missing"))
     res = tlc_validate([{"id": 1, "cls": case["cls"][:sum(1 for e in events if e["op"] == "create")],
                          "rel": case["rel"], "events": events}], "replay")
     r = res[1]
@@ -938,6 +1058,14 @@ def selftest(tier: str) -> int:
         def pop(self, k, *d):
             return dict.pop(self, self._k(k), *d)
 
+    def resolve_probe(*edits):
+        def cmgr():
+            fn = _variant(cm, "_resolve_media", list(edits))
+            if fn is None:
+                raise MachineryError("probe inapplicable: source text not found")
+            return patch(cm, "_resolve_media", fn)
+        return cmgr
+
     LIST = "        else:\n            bases = media_extend\n"
     probes = [
         ("extend-list-ignored", media_probe((LIST, "        else:\n            bases = curr_cls.__bases__\n"))),
@@ -989,6 +1117,13 @@ def selftest(tier: str) -> int:
         ("asset-text-stripped-when-resolved",
          asset_probe(("    return asset_content\n",
                       "    return asset_content.strip() if isinstance(asset_content, str) else asset_content\n"))),
+        # fault, then retry: a failed resolution leaves no state behind
+        ("resolved-flag-set-before-the-files-are-loaded (None after a failed first access)",
+         resolve_probe(("    comp_dirs = get_component_dirs()\n",
+                        "    comp_media.resolved = True\n    comp_dirs = get_component_dirs()\n"))),
+        ("missing-asset-file-swallowed (None instead of an error)",
+         asset_probe(('            raise ValueError(f"Could not find {inlined_attr} file {asset_file}")\n',
+                      "            return None\n"))),
         ("both-members-check-by-truthiness (`js = \"\"` beside js_file accepted)",
          lambda: patch(cm.ComponentMedia, "__post_init__", post_init_truthy)),
     ]
